@@ -52,7 +52,7 @@ def _instances(tier, seed):
         if ig == "RungeKuttaMerson":
             # known finding: with the step size pinned at the user minimum a DAE step that failed to converge (projection refused) is accepted
             out.append(dict(name="quat/Ball/Verlet/force/minstep", args=["quat", "Ball", "Verlet", "force", "1"], base_points=1, paths=1,
-                            seedcase=dict(h=0.5, u0=1.5, u1=-2.0, u2=1.0), max_terms=3000, abstract_big=True, pc_max_terms=1))
+                            seedcase=dict(h=0.625, u0=1.875, u1=-2.5, u2=1.25), max_terms=3000, abstract_big=True, pc_max_terms=1))
         for mo in ("steady", "sinP", "sinV"):
             for rep in ("step", "interp"):
                 out.append(dict(name="presc/%s/%s/%s" % (mo, ig, rep), args=["presc", mo, ig, rep], base_points=1 if not th else 2, paths=1, max_terms=4000,
